@@ -408,3 +408,197 @@ Proof.
   - left. reflexivity.
   - right. exists e. split; [reflexivity | apply B].
 Qed.
+
+(* ------------------------------------------------------------------------------------------ *)
+(* at the deadline the oldest unacknowledged sequence space is (re)transmitted                  *)
+(* ------------------------------------------------------------------------------------------ *)
+Lemma ga_nonempty : forall r size, rb_wf r -> 0 < rb_len r -> 0 < size ->
+  0 < l_len (rb_get_allocated r 0 size).
+Proof.
+  intros r size (Hl & Hs & Hr & Hc) Hlen Hsz. unfold rb_get_allocated, rb_get_idx.
+  destruct (Z.gtb_spec 0 (rb_len r)); [lia|].
+  destruct (Z.gtb_spec (rb_cap r) 0); [|lia].
+  rewrite Z.add_0_r, Z.mod_small by lia.
+  rewrite l_len_slice; lia.
+Qed.
+
+Lemma ga_empty : forall r off size, rb_wf r -> rb_len r = off -> 0 <= off ->
+  rb_get_allocated r off size = [].
+Proof.
+  intros r off size Hwf Hlen Hoff. apply l_len_zero_nil.
+  pose proof (rb_get_allocated_spec r off size Hwf ltac:(lia)) as (A & _ & B & _). lia.
+Qed.
+
+Definition mss_ok (cx : ctx) (s : socket) : Prop :=
+  wipv4_HEADER_LEN + wtcp_HEADER_LEN <= cx_ip_mtu cx /\
+  12 < Z.min (cx_ip_mtu cx - wipv4_HEADER_LEN - wtcp_HEADER_LEN) (s_remote_mss s).
+
+Lemma local_mss_ok : forall cx s, mss_ok cx s ->
+  tcp_local_mss cx = Ok (cx_ip_mtu cx - wipv4_HEADER_LEN - wtcp_HEADER_LEN).
+Proof.
+  intros cx s (H1 & _). unfold tcp_local_mss, usub.
+  assert (wipv4_HEADER_LEN = 20) by reflexivity. assert (wtcp_HEADER_LEN = 20) by reflexivity.
+  destruct (Z.ltb_spec (cx_ip_mtu cx - wipv4_HEADER_LEN) 0); [lia|]. cbn [obind].
+  destruct (Z.ltb_spec (cx_ip_mtu cx - wipv4_HEADER_LEN - wtcp_HEADER_LEN) 0); [lia|]. reflexivity.
+Qed.
+
+(* the segment template of dispatch: an empty ACK at SND.NXT *)
+Definition base_repr (cx : ctx) (s : socket) (t : tuple) : tcp_repr :=
+  mkRepr (tu_local_port t) (tu_remote_port t) CNone (s_remote_last_seq s)
+         (Some (tcp_window_start s)) (tcp_scaled_window s) None None false no_sack
+         (if s_tsval_generator s then Some (cx_tsval cx, s_last_remote_tsval s) else None) [].
+
+Lemma base_repr_options : forall cx s t,
+  usub (repr_header_len (base_repr cx s t)) wtcp_HEADER_LEN = Ok (if s_tsval_generator s then 12 else 0).
+Proof. intros. unfold base_repr. destruct (s_tsval_generator s); vm_compute; reflexivity. Qed.
+
+Lemma seglen_payload : forall r, l_len (r_payload r) <= repr_segment_len r.
+Proof. intros. unfold repr_segment_len, control_len. destruct (r_control r); lia. Qed.
+
+(* the data / FIN states: with nothing in flight and the window open (or nothing queued), the
+   segment built starts at SND.UNA and occupies sequence space *)
+Lemma build_data_sends : forall cx s t s3 o z tg,
+  tcp_live_inv s -> mss_ok cx s ->
+  s_remote_last_seq s = s_local_seq_no s ->
+  (0 < rb_len (s_tx_buffer s) -> s_remote_win_len s <> 0) ->
+  timer_should_zero_window_probe (s_timer s) (cx_now cx) = false ->
+  (0 < rb_len (s_tx_buffer s) \/
+   match s_state s with FinWait1 | LastAck | Closing => True | _ => False end) ->
+  tcp_dispatch_build_data cx s (base_repr cx s t) = Ok (s3, o, z, tg) ->
+  exists r', o = Some r' /\ z = false /\ r_seq_number r' = s_local_seq_no s /\
+             0 < repr_segment_len r' /\ r_control r' <> CSyn /\
+             (s3 = s \/ s3 = upd_pending_fast_retransmit s false).
+Proof.
+  intros cx s t s3 o z tg I Hmss Hfl Hw Hzp Hneed H. unfold tcp_dispatch_build_data in H.
+  rewrite base_repr_options, (local_mss_ok cx s Hmss) in H. cbn [obind] in H.
+  set (emss := sat_sub (Z.min (cx_ip_mtu cx - wipv4_HEADER_LEN - wtcp_HEADER_LEN) (s_remote_mss s))
+                       (if s_tsval_generator s then 12 else 0)) in *.
+  assert (Hem : 0 < emss).
+  { unfold emss, sat_sub. destruct Hmss as (_ & Hm). destruct (s_tsval_generator s); lia. }
+  pose proof (li_tx s I) as Hwf. pose proof Hwf as ((Hl0 & _) & _).
+  pose proof (li_win s I) as HW. change (2 ^ 30) with 1073741824 in HW.
+  pose proof (cc_window_pos _ (li_cc s I)) as Hcw.
+  assert (Hfinal : forall q p off zw tq,
+    (0 < rb_len (s_tx_buffer s) -> 0 < l_len p) -> (rb_len (s_tx_buffer s) = 0 -> p = []) ->
+    off = 0 -> s_state q = s_state s -> s_tx_buffer q = s_tx_buffer s ->
+    (let '(s, repr, offset, zwp, tg) :=
+       (q, repr_set_payload (repr_set_seq (base_repr cx s t) (s_local_seq_no s)) p, off, zw, tq) in
+     let has_payload := match r_payload repr with [] => false | _ => true end in
+     let repr :=
+       if offset + l_len (r_payload repr) =? rb_len (s_tx_buffer s) then
+         match s_state s with
+         | FinWait1 | LastAck | Closing => repr_set_control repr CFin
+         | Established | CloseWait => if has_payload then repr_set_control repr CPsh else repr
+         | _ => repr
+         end
+       else repr in
+     Ok (s, Some repr, zwp, tg)) = Ok (s3, o, z, tg) ->
+    exists r', o = Some r' /\ z = zw /\ r_seq_number r' = s_local_seq_no s /\
+               0 < repr_segment_len r' /\ r_control r' <> CSyn /\ s3 = q).
+  { intros q p off zw tq Hp1 Hp0 -> Eq1 Eq2 H'. cbv zeta beta iota in H'.
+    rewrite Eq1, Eq2 in H'. cbn [r_payload repr_set_payload repr_set_seq base_repr] in H'.
+    destruct (Z.eq_dec (rb_len (s_tx_buffer s)) 0) as [Hz|Hz].
+    - rewrite (Hp0 Hz), Hz in H'. cbn [l_len l_len_acc Z.add] in H'. rewrite Z.eqb_refl in H'.
+      destruct Hneed as [Hn|Hn]; [lia|].
+      destruct (s_state s); try contradiction; inversion H'; subst;
+        eexists; (split; [reflexivity|]); (split; [reflexivity|]);
+        cbn; repeat split; try lia; discriminate.
+    - assert (Hpp : 0 < l_len p) by (apply Hp1; lia).
+      match type of H' with context [if ?b then _ else _] => destruct b end;
+        [destruct (s_state s); [..]; try (destruct p; [cbn in Hpp; lia|])|];
+        inversion H'; subst; eexists; (split; [reflexivity|]); (split; [reflexivity|]);
+        (split; [reflexivity|]);
+        (split; [eapply Z.lt_le_trans; [exact Hpp | apply (seglen_payload (mkRepr _ _ _ _ _ _ _ _ _ _ _ _))]|]);
+        (split; [cbn; discriminate | reflexivity]). }
+  destruct (s_pending_fast_retransmit s && (s_remote_win_len s >? 0)) eqn:Hpf.
+  - (* fast-retransmit path: from SND.UNA *)
+    cbn [obind] in H. apply andb_true_iff in Hpf. destruct Hpf as (_ & Hwp).
+    set (sz := Z.min (Z.min emss (rb_len (s_tx_buffer s))) (s_remote_win_len s)) in *.
+    assert (Hp1 : 0 < rb_len (s_tx_buffer s) -> 0 < l_len (rb_get_allocated (s_tx_buffer s) 0 sz))
+      by (intros; apply ga_nonempty; [exact Hwf | lia | unfold sz; lia]).
+    assert (Hp0 : rb_len (s_tx_buffer s) = 0 -> rb_get_allocated (s_tx_buffer s) 0 sz = [])
+      by (intros; apply (ga_empty _ 0); [exact Hwf | lia | lia]).
+    assert (Eq1 : s_state (upd_pending_fast_retransmit s false) = s_state s) by (sproj; reflexivity).
+    assert (Eq2 : s_tx_buffer (upd_pending_fast_retransmit s false) = s_tx_buffer s) by (sproj; reflexivity).
+    destruct (Hfinal _ _ _ _ _ Hp1 Hp0 eq_refl Eq1 Eq2 H) as (r' & A1 & A2 & A3 & A4 & A5 & A6).
+    exists r'. repeat split; auto.
+  - (* normal path: offset = flight size = 0, window limit = remote window *)
+    rewrite Hfl in H.
+    rewrite seq_ge_add_small, seq_sub_add_small in H by (change (2 ^ 31) with 2147483648; lia).
+    cbn [obind] in H. rewrite Hzp, andb_false_r in H.
+    unfold tcp_cwnd_remaining, tcp_flight_size in H. rewrite Hfl, seq_sub_self in H.
+    cbn [obind] in H. unfold sat_sub in H. rewrite Z.sub_0_r in H.
+    rewrite (Z.max_r 0 (cc_window _)) in H by lia.
+    assert (Hbase : repr_set_payload (base_repr cx s t)
+                      (rb_get_allocated (s_tx_buffer s) 0
+                         (Z.min (Z.min (s_remote_win_len s) emss) (cc_window (s_congestion_controller s)))) =
+                    repr_set_payload (repr_set_seq (base_repr cx s t) (s_local_seq_no s))
+                      (rb_get_allocated (s_tx_buffer s) 0
+                         (Z.min (Z.min (s_remote_win_len s) emss) (cc_window (s_congestion_controller s))))).
+    { unfold repr_set_payload, repr_set_seq, base_repr. cbn. rewrite Hfl. reflexivity. }
+    rewrite Hbase in H.
+    set (sz := Z.min (Z.min (s_remote_win_len s) emss) (cc_window (s_congestion_controller s))) in *.
+    assert (Hp1 : 0 < rb_len (s_tx_buffer s) -> 0 < l_len (rb_get_allocated (s_tx_buffer s) 0 sz))
+      by (intros HL; apply ga_nonempty; [exact Hwf | lia | specialize (Hw HL); unfold sz; lia]).
+    assert (Hp0 : rb_len (s_tx_buffer s) = 0 -> rb_get_allocated (s_tx_buffer s) 0 sz = [])
+      by (intros; apply (ga_empty _ 0); [exact Hwf | lia | lia]).
+    destruct (Hfinal _ _ _ _ _ Hp1 Hp0 eq_refl eq_refl eq_refl H) as (r' & A1 & A2 & A3 & A4 & A5 & A6).
+    exists r'. repeat split; auto.
+Qed.
+
+Lemma seglen_nonempty : forall r, 0 < repr_segment_len r -> repr_is_empty r = false.
+Proof.
+  intros r H. unfold repr_segment_len, repr_is_empty, control_len in *.
+  destruct (r_payload r); [|reflexivity]. cbn in H. destruct (r_control r); try reflexivity; lia.
+Qed.
+
+Lemma build_sends : forall cx s t s3 o z k tg,
+  tcp_live_inv s -> tcp_need s -> mss_ok cx s ->
+  s_remote_last_seq s = s_local_seq_no s ->
+  (0 < rb_len (s_tx_buffer s) -> s_remote_win_len s <> 0) ->
+  timer_should_zero_window_probe (s_timer s) (cx_now cx) = false ->
+  tcp_dispatch_build cx s t = Ok (s3, o, z, k, tg) ->
+  exists repr, o = Some repr /\ z = false /\ k = false /\
+               r_seq_number repr = s_local_seq_no s /\ 0 < repr_segment_len repr.
+Proof.
+  intros cx s t s3 o z k tg I N Hmss Hfl Hw Hzp H. unfold tcp_dispatch_build in H.
+  change (mkRepr (tu_local_port t) (tu_remote_port t) CNone (s_remote_last_seq s)
+            (Some (tcp_window_start s)) (tcp_scaled_window s) None None false no_sack
+            (if s_tsval_generator s then Some (cx_tsval cx, s_last_remote_tsval s) else None) [])
+    with (base_repr cx s t) in H.
+  obind_inv H. destruct a as (((sb, ob), zb), tb).
+  assert (Hb : exists r0, ob = Some r0 /\ zb = false /\ r_seq_number r0 = s_local_seq_no s /\
+                          0 < repr_segment_len r0 /\ s_timer sb = s_timer s).
+  { pose proof (need_live s I N) as L. unfold tcp_need in N.
+    assert (Hsyn : forall b, exists r0, Some (tcp_syn_repr s (base_repr cx s t)
+                     (if s_tsval_generator s then Some (cx_tsval cx, s_last_remote_tsval s) else None) b) = Some r0 /\
+                     r_seq_number r0 = s_local_seq_no s /\ 0 < repr_segment_len r0).
+    { intros b. eexists. split; [reflexivity|]. unfold tcp_syn_repr, repr_segment_len.
+      cbn [r_seq_number r_payload r_control control_len]. rewrite l_len_nil. split; [reflexivity | lia]. }
+    destruct (s_state s) eqn:Hst; cbn [st_live] in L; try discriminate.
+    - destruct (Hsyn true) as (r0 & A & B & C). inversion E; subst. exists r0. auto.
+    - destruct (Hsyn false) as (r0 & A & B & C). inversion E; subst. exists r0. auto.
+    - destruct (build_data_sends cx s t sb ob zb tb I Hmss Hfl Hw Hzp) as (r' & A1 & A2 & A3 & A4 & _ & A6);
+        [rewrite Hst; auto | exact E|].
+      exists r'. repeat split; auto. destruct A6 as [-> | ->]; sproj; reflexivity.
+    - destruct (s_syn_unacked_in_fin_wait s).
+      + destruct (Hsyn false) as (r0 & A & B & C). inversion E; subst. exists r0. auto.
+      + destruct (build_data_sends cx s t sb ob zb tb I Hmss Hfl Hw Hzp) as (r' & A1 & A2 & A3 & A4 & _ & A6);
+          [rewrite Hst; auto | exact E|].
+        exists r'. repeat split; auto. destruct A6 as [-> | ->]; sproj; reflexivity.
+    - destruct (build_data_sends cx s t sb ob zb tb I Hmss Hfl Hw Hzp) as (r' & A1 & A2 & A3 & A4 & _ & A6);
+        [rewrite Hst; auto | exact E|].
+      exists r'. repeat split; auto. destruct A6 as [-> | ->]; sproj; reflexivity.
+    - destruct (build_data_sends cx s t sb ob zb tb I Hmss Hfl Hw Hzp) as (r' & A1 & A2 & A3 & A4 & _ & A6);
+        [rewrite Hst; auto | exact E|].
+      exists r'. repeat split; auto. destruct A6 as [-> | ->]; sproj; reflexivity.
+    - destruct (build_data_sends cx s t sb ob zb tb I Hmss Hfl Hw Hzp) as (r' & A1 & A2 & A3 & A4 & _ & A6);
+        [rewrite Hst; auto | exact E|].
+      exists r'. repeat split; auto. destruct A6 as [-> | ->]; sproj; reflexivity. }
+  destruct Hb as (r0 & -> & -> & Hseq & Hlen & Ht). clear E.
+  cbv zeta in H. rewrite (seglen_nonempty _ Hlen) in H. cbn [andb] in H.
+  rewrite ?(seglen_nonempty _ Hlen), ?andb_false_r in H.
+  rewrite (local_mss_ok cx s Hmss) in H. cbn [obind] in H.
+  destruct (control_eqb (r_control r0) CSyn); inversion H; subst; eexists;
+    (split; [reflexivity|]); repeat split; auto.
+Qed.
